@@ -736,10 +736,10 @@ func init() {
 		Rule:   "Bounds() of generated geometries (7 types x NoLayout..Layout(8), no NaN, +-Inf and -0 included) and of collections nested to depth 4 with mixed member layouts compared with the model's min/max by semantic dimension (X, Y, Z via ZIndex, M via MIndex) using ==; coordinate-free geometries must be empty; Extend histories of 1..6 geometries over XY/XYZ/XYM/XYZM from a NoLayout/XY/XYZ/XYM start in every permutation (n<=5) must all give the model's layout and intervals; Overlaps/OverlapsPoint on a 0..4 grid incl. touching, degenerate and empty boxes vs closed-interval arithmetic; Bounds.Polygon(). distinct_nontrivial = distinct (shape signature, depth) / layout sequences / box pairs",
 		Assume: []string{"min and max are exact operations, so no tolerance is used"},
 		Classes: []fw.Class{
-			{Name: "geometries", Quick: 150000, Thorough: 3000000, Run: c08Geoms},
-			{Name: "extend-orders", Quick: 15000, Thorough: 300000, Run: c08Extend},
-			{Name: "overlaps", Quick: 100000, Thorough: 3000000, Run: c08Overlap},
-			{Name: "collection-histories", Quick: 40000, Thorough: 1000000, Run: c08CollHistory},
+			{Name: "geometries", Quick: 150000, Thorough: 12000000, Run: c08Geoms},
+			{Name: "extend-orders", Quick: 15000, Thorough: 1200000, Run: c08Extend},
+			{Name: "overlaps", Quick: 100000, Thorough: 12000000, Run: c08Overlap},
+			{Name: "collection-histories", Quick: 40000, Thorough: 4000000, Run: c08CollHistory},
 		},
 		Require: []string{"collections", "nested_collections", "collections_mixing_layouts", "coordinate_free", "permutation_sets_fully_enumerated", "extend_mixing_xyz_and_xym", "overlap_true", "overlap_false", "overlap_touching", "overlap_with_empty_box", "overlap_with_partly_empty_box", "overlaps_point_true", "overlaps_point_false"},
 	})
